@@ -39,8 +39,30 @@ Definition d_get (p : path) (d : dictionary) : status * atype * aval :=
   | Some e => if e_set e then (KDUMP_OK, e_ty e, e_val e) else (ERR_NODATA, TNil, VNone)
   end.
 
-(** setting [p] (a key of type [ty]) to [v]: the key holds [v] and is
-    persistent; its ancestors have a value; nothing else changes *)
+(** Ancestors.  Setting a key gives a value to the directories above it — the
+    library walks from the parent upwards and stops at the first directory that
+    has a value already (a directory can be without a value although something
+    below it has one: [addrxlat] in a new context).  [inst_reach d q p]: [q] is
+    a proper ancestor of [p] and every directory strictly between them is
+    without a value in [d]. *)
+Definition unset_at (d : dictionary) (q : path) : bool :=
+  match d q with Some e => negb (e_set e) | None => true end.
+
+Fixpoint below_unset (d : dictionary) (rest : path) : bool :=
+  match rest with
+  | [] => true
+  | c :: r => unset_at d [] && below_unset (fun z => d (c :: z)) r
+  end.
+
+Fixpoint inst_reach (d : dictionary) (q p : path) : bool :=
+  match q, p with
+  | [], c :: rest => below_unset (fun z => d (c :: z)) rest
+  | x :: q', y :: p' => bytes_eqb x y && inst_reach (fun z => d (x :: z)) q' p'
+  | _, [] => false
+  end.
+
+(** setting [p] to [v]: the key holds [v] and is persistent; the ancestors
+    reached by the walk have a value; nothing else changes *)
 Definition d_set (p : path) (v : aval) (d : dictionary) : dictionary :=
   fun q =>
     match d q with
@@ -49,7 +71,7 @@ Definition d_set (p : path) (v : aval) (d : dictionary) : dictionary :=
         if path_eqb q p then
           Some {| e_ty := e_ty e; e_set := true; e_persist := true;
                   e_val := match e_ty e with TDir => e_val e | _ => v end |}
-        else if strict_prefix q p then
+        else if inst_reach d q p then
           Some {| e_ty := e_ty e; e_set := true; e_persist := e_persist e; e_val := e_val e |}
         else Some e
     end.
@@ -86,7 +108,7 @@ Definition dl_set (p : path) (v : aval) (l : alist) : alist :=
          if path_eqb q p then
            (q, {| e_ty := e_ty e; e_set := true; e_persist := true;
                   e_val := match e_ty e with TDir => e_val e | _ => v end |})
-         else if strict_prefix q p then
+         else if inst_reach (fun x => dl_find x l) q p then
            (q, {| e_ty := e_ty e; e_set := true; e_persist := e_persist e; e_val := e_val e |})
          else (q, e)) l.
 
@@ -97,7 +119,7 @@ Definition dl_derive (p : path) (v : aval) (l : alist) : alist :=
          if path_eqb q p then
            (q, {| e_ty := e_ty e; e_set := true; e_persist := false;
                   e_val := match e_ty e with TDir => e_val e | _ => v end |})
-         else if strict_prefix q p then
+         else if inst_reach (fun x => dl_find x l) q p then
            (q, {| e_ty := e_ty e; e_set := true; e_persist := e_persist e; e_val := e_val e |})
          else (q, e)) l.
 
